@@ -55,7 +55,7 @@ class Check:
 
     def ob(self, rule, key, verdict, where="", detail="", facts=None):
         """key: stable, line-free identifier `<rule>:<item path>[:<sub>]`"""
-        full = "%s:%s" % (rule, key)
+        full = ("%s:%s" % (rule, key)).replace(" as ", "@").replace(" ", "_")
         self.obs.append({"rule": rule, "key": full, "verdict": verdict, "where": where, "detail": detail, "facts": facts})
         return verdict
 
